@@ -247,47 +247,9 @@ func (p *Processor) ChargingDataUpdate(
 	// Online charging: Rate, Account, Reservation
 	responseBody, partialRecord := p.BuildConvergedChargingDataUpdateResopone(chargingData)
 
-	cdrBytes, errCdrBer := asn.BerMarshalWithParams(&cdr, "explicit,choice")
-	if errCdrBer != nil {
-		logger.ChargingdataPostLog.Error(errCdrBer)
-		problemDetails := &models.ProblemDetails{
-			Status: http.StatusBadRequest,
-			Detail: errCdrBer.Error(),
-		}
+	cdr, problemDetails := p.recordWithRoomFor(ue, chargingSessionId, cdr, chargingData)
+	if problemDetails != nil {
 		return nil, problemDetails
-	}
-
-	var chgDataBytes []byte
-	var errChgDataBer error
-	if chargingData.MultipleUnitUsage != nil && len(chargingData.MultipleUnitUsage) != 0 {
-		cdrMultiUnitUsage := cdrConvert.MultiUnitUsageToCdr(chargingData.MultipleUnitUsage)
-		chgDataBytes, errChgDataBer = asn.BerMarshalWithParams(&cdrMultiUnitUsage, "explicit,choice")
-		if errChgDataBer != nil {
-			logger.ChargingdataPostLog.Error(errChgDataBer)
-			problemDetails := &models.ProblemDetails{
-				Status: http.StatusBadRequest,
-				Detail: errChgDataBer.Error(),
-			}
-			return nil, problemDetails
-		}
-	}
-
-	if len(cdrBytes)+len(chgDataBytes) > math.MaxUint16 {
-		var newRecord *cdrType.CHFRecord
-		cdrJson, err := json.Marshal(cdr)
-		if err != nil {
-			logger.ChargingdataPostLog.Error(err)
-		}
-		err = json.Unmarshal(cdrJson, &newRecord)
-		if err != nil {
-			logger.ChargingdataPostLog.Error(err)
-		}
-
-		newRecord.ChargingFunctionRecord.ListOfMultipleUnitUsage = []cdrType.MultipleUnitUsage{}
-		cdr = newRecord
-		ue.Records = append(ue.Records, cdr)
-		// the session continues in the new record
-		ue.Cdr[chargingSessionId] = cdr
 	}
 
 	err := p.UpdateCDR(cdr, chargingData)
@@ -341,6 +303,59 @@ func (p *Processor) ChargingDataUpdate(
 	return &responseBody, nil
 }
 
+// recordWithRoomFor returns the record of the session to which the usage reported in
+// chargingData is to be appended: the current one or, when its encoding would then exceed
+// the 65535-octet limit of a CDR (TS 32.297), a fresh record that continues the session.
+func (p *Processor) recordWithRoomFor(
+	ue *chf_context.ChfUe, chargingSessionId string, cdr *cdrType.CHFRecord,
+	chargingData models.ChfConvergedChargingChargingDataRequest,
+) (*cdrType.CHFRecord, *models.ProblemDetails) {
+	cdrBytes, errCdrBer := asn.BerMarshalWithParams(&cdr, "explicit,choice")
+	if errCdrBer != nil {
+		logger.ChargingdataPostLog.Error(errCdrBer)
+		problemDetails := &models.ProblemDetails{
+			Status: http.StatusBadRequest,
+			Detail: errCdrBer.Error(),
+		}
+		return nil, problemDetails
+	}
+
+	var chgDataBytes []byte
+	var errChgDataBer error
+	if chargingData.MultipleUnitUsage != nil && len(chargingData.MultipleUnitUsage) != 0 {
+		cdrMultiUnitUsage := cdrConvert.MultiUnitUsageToCdr(chargingData.MultipleUnitUsage)
+		chgDataBytes, errChgDataBer = asn.BerMarshalWithParams(&cdrMultiUnitUsage, "explicit,choice")
+		if errChgDataBer != nil {
+			logger.ChargingdataPostLog.Error(errChgDataBer)
+			problemDetails := &models.ProblemDetails{
+				Status: http.StatusBadRequest,
+				Detail: errChgDataBer.Error(),
+			}
+			return nil, problemDetails
+		}
+	}
+
+	if len(cdrBytes)+len(chgDataBytes) > math.MaxUint16 {
+		var newRecord *cdrType.CHFRecord
+		cdrJson, err := json.Marshal(cdr)
+		if err != nil {
+			logger.ChargingdataPostLog.Error(err)
+		}
+		err = json.Unmarshal(cdrJson, &newRecord)
+		if err != nil {
+			logger.ChargingdataPostLog.Error(err)
+		}
+
+		newRecord.ChargingFunctionRecord.ListOfMultipleUnitUsage = []cdrType.MultipleUnitUsage{}
+		cdr = newRecord
+		ue.Records = append(ue.Records, cdr)
+		// the session continues in the new record
+		ue.Cdr[chargingSessionId] = cdr
+	}
+
+	return cdr, nil
+}
+
 func (p *Processor) ChargingDataRelease(
 	chargingData models.ChfConvergedChargingChargingDataRequest, chargingSessionId string,
 ) *models.ProblemDetails {
@@ -369,6 +384,12 @@ func (p *Processor) ChargingDataRelease(
 	}
 
 	sessionChargingReservation(chargingData)
+
+	// a release may report usage too: it is subject to the same record size limit
+	cdr, problemDetails := p.recordWithRoomFor(ue, chargingSessionId, cdr, chargingData)
+	if problemDetails != nil {
+		return problemDetails
+	}
 
 	err := p.UpdateCDR(cdr, chargingData)
 	if err != nil {
